@@ -31,7 +31,7 @@ def run(tier, seed, workers):
                                       f'calc_score({bid} dbl={dbl} vul={vul} declarer={decl}, tricks={tricks}) = {got}, '
                                       f'duplicate table says {exp}',
                                       {'kind': 'score', 'bid': bid, 'dbl': dbl, 'vul': vul, 'decl': decl,
-                                       'tricks': tricks, 'expected': exp})
+                                       'tricks': tricks, 'expected': exp, 'ordinal': c.get('evals')})
                         if c.get('evals') % 5000 == 1:
                             c.sample({'contract': bid + 'X' * dbl, 'vul': vul, 'declarer': decl, 'tricks': tricks,
                                       'score': got})
@@ -68,6 +68,20 @@ def run(tier, seed, workers):
 
 def replay(d):
     if d['kind'] == 'score':
+        if d.get('ordinal'):
+            # first in the original order of the enumeration up to this input (a failure may depend on the calls made before it:
+            # hidden state); an isolated call first would itself change such state
+            n = 0
+            for bid in BIDS:
+                for dbl in (0, 1, 2):
+                    for vul in adapt.VULS:
+                        for decl in adapt.SEATS:
+                            c2 = adapt.mk_contract(bid, dbl, vul, decl)
+                            for tricks in range(14):
+                                g = calc_score(c2, tricks)
+                                n += 1
+                                if n == d['ordinal'] and g != d['expected']:
+                                    return True, f"after the {n - 1} preceding calls of the enumeration calc_score -> {g}, expected {d['expected']}"
         con = adapt.mk_contract(d['bid'], d['dbl'], d['vul'], d['decl'])
         got = calc_score(con, d['tricks'])
         return got != d['expected'], f"calc_score -> {got}, expected {d['expected']}"
